@@ -292,42 +292,26 @@ class IndexedCache:
         # Fast return on empty cache node
         if isinstance(cache, CacheDict) and not cache:
             return
-        keys = self.keys
-        n_keys = len(keys)
-        key = keys[key_idx]
-
-        # Follow the concrete chain as far as it exists without exceptions
-        while key in assignment:
-            next_cache = cache.get(assignment[key])
-            if next_cache is None:
-                # Try wildcard branch at this level
-                wildcard = cache.get(All)
-                if wildcard is not None:
-                    yield from self._yield_result(assignment, wildcard, key_idx, result)
+        key = self.keys[key_idx]
+        if key in assignment:
+            # an entry agrees with the lookup on this key if it stores the same value or leaves the key open
+            found = False
+            for branch_key in (assignment[key], All):
+                branch = cache.get(branch_key)
+                if branch is not None:
+                    found = True
+                    yield from self._yield_result(assignment, branch, key_idx, result)
+            if not found:
+                self.search_count += 1
+        else:
+            # the lookup leaves this key open: every branch agrees with it
+            for cache_key, cache_val in cache.items():
+                if cache_key is All:
+                    yield from self._yield_result(assignment, cache_val, key_idx, result)
                 else:
-                    self.search_count += 1
-                return
-            cache = next_cache
-            if key_idx + 1 < n_keys:
-                key_idx += 1
-                key = keys[key_idx]
-            else:
-                break
-
-        if key not in assignment:
-            # Prefer wildcard branch if available
-            wildcard = cache.get(All)
-            if wildcard is not None:
-                yield from self._yield_result(assignment, wildcard, key_idx, result)
-            else:
-                # Explore all branches at this level, copying only the minimal delta
-                for cache_key, cache_val in cache.items():
                     local_result = copy(result)
                     local_result[key] = cache_key
                     yield from self._yield_result(assignment, cache_val, key_idx, local_result)
-        else:
-            # Reached the leaf (value or next dict) specifically specified by assignment
-            yield result, cache
 
     def clear(self):
         self.cache.clear()
